@@ -97,6 +97,14 @@ def main():
                 extra.setdefault(k, v)
     except Exception:
         pass
+    try:
+        import zlib
+        extra.setdefault("zlib.error", zlib.error)
+        from cryptography.exceptions import InvalidTag, InvalidSignature
+        extra.setdefault("InvalidTag", InvalidTag)
+        extra.setdefault("cryptography.exceptions.InvalidTag", InvalidTag)
+    except Exception:
+        pass
     for k, v in extra.items():
         out["excs"][k] = [c.__module__ + "." + c.__qualname__ for c in v.__mro__]
     out["special"] = special()
